@@ -48,6 +48,10 @@ BOOLOPS = (ast.And, ast.Or)
 UNARYOPS = (ast.Invert, ast.Not, ast.UAdd, ast.USub)
 CMPOPS = (ast.Eq, ast.NotEq, ast.Lt, ast.LtE, ast.Gt, ast.GtE, ast.Is, ast.IsNot, ast.In, ast.NotIn)
 
+# names every module imports in its prelude: a later module that wildcard-imports an earlier one re-exports them as
+# chained aliases (alias -> alias of the earlier module -> object of a package that is not loaded)
+REEXPORTED = ("P", "ospath", "wraps")
+
 # callees of generated calls with keyword arguments (see full_exprs): they resolve through imports of the module prelude or
 # to members of the module, so `ExprKeyword.canonical_path` (`path.to.callee(param)`) differs from what is written
 CALLEES = (
@@ -365,10 +369,10 @@ def expr_depth(t) -> int:
 def docstrings():
     # documented names include members that are aliases nobody can resolve (`thing`: import of a missing module, `P`,
     # `ospath`: prelude imports of modules that are not loaded)
-    item = st.tuples(st.sampled_from(PARAM_NAMES + ("x", "A", "f", "thing", "P", "ospath")), st.integers(0, len(DOC_ANNOTATIONS) - 1), st.integers(0, len(DOC_DESCS) - 1)).map(list)
+    item = st.tuples(st.sampled_from(PARAM_NAMES + ("x", "A", "f", "thing", "P", "ospath", "P", "ospath", "wraps")), st.integers(0, len(DOC_ANNOTATIONS) - 1), st.integers(0, len(DOC_DESCS) - 1)).map(list)
     # parameters sections are drawn more often: the parsers look the documented parameters up in the signature of the
     # function, or of the class (`Class.parameters`: `__init__` of the class or of a base, through the MRO)
-    kinds = st.sampled_from((0, 0, 0, *range(1, len(DOC_KINDS))))
+    kinds = st.sampled_from((0, 0, 0, 8, 8, *range(1, len(DOC_KINDS))))  # 8 = attributes
     section = st.tuples(kinds, st.lists(item, min_size=1, max_size=2)).map(list)
     # "lead": 0 text right after the quotes; 1 text on the next line; 2 next line and every further line indented deeper
     full = st.fixed_dictionaries(
@@ -411,7 +415,9 @@ def _google(kind, rows):
     if kind == "deprecated":
         return lines + ["    1.0: " + rows[0][2]]
     for name, ann, desc in rows:
-        if kind in ("parameters", "other parameters", "attributes"):
+        if kind == "attributes" and name in REEXPORTED:
+            lines.append(f"    {name}: {desc}")  # untyped: the parser fetches the annotation from the member of that name
+        elif kind in ("parameters", "other parameters", "attributes"):
             lines.append(f"    {name} ({ann}): {desc}" if ann else f"    {name}: {desc}")
         elif kind in ("raises", "warns"):
             lines.append(f"    {ann or 'ValueError'}: {desc}")
@@ -568,6 +574,9 @@ def _bodies(importable: bool, expr_leaves: int, eval_annotations: bool = False):
                     "decos": class_decos,
                     # a dataclass whose fields feed a synthesised `__init__` (documented parameters); static flavour only
                     "dc": st.just(False) if importable else st.integers(0, 3).map(lambda i: i == 0),
+                    # dataclasses only: the first annotated field becomes a documented `dataclasses.InitVar[...]` pseudo-field
+                    # (a parameter of the synthesised `__init__` that is not an attribute of the class)
+                    "initvar": st.integers(0, 3).map(lambda i: i > 0),
                     # one-line form `class C: x = 1` when the body renders as a single simple statement
                     "oneline": st.booleans(),
                     "doc": odoc,
@@ -732,6 +741,10 @@ class _ModRenderer:
         s.add(0, "import os.path as ospath")
         s.add(0, "from functools import partial as P, wraps")
         self.body(0, mod["body"], in_class=None)
+        doc = mod["doc"]
+        if doc and self.earlier and any(DOC_KINDS[k % len(DOC_KINDS)] == "attributes" and any(n in REEXPORTED for n, _, _ in items) for k, items in doc["sections"]):
+            # a module that documents a re-exported name re-exports it: wildcard import of an earlier module, below the prelude
+            s.add(0, f"from {_slot_path(self.earlier[0][0], self.name)} import *")
         return s.text()
 
     # -- helpers
@@ -872,6 +885,16 @@ class _ModRenderer:
             decos = ["dataclasses.dataclass", *[d for d in decos if d != "dataclasses.dataclass"]]
             # the extension only synthesises `__init__` when the class does not define one
             spec = {**spec, "body": [(["func", "f", st_[2]] if st_[0] == "func" and st_[1] == "__init__" else st_) for st_ in spec["body"]]}
+            if spec.get("initvar"):
+                body, done = [], False
+                for st_ in spec["body"]:
+                    if not done and st_[0] == "attr" and st_[2] is not None:
+                        st_ = ["attr", st_[1], ["subscript", ["attr", ["name", "dataclasses"], "InitVar"], st_[2]], st_[3], st_[4] or {"sum": 0, "sections": []}]
+                        done = True
+                    body.append(st_)
+                if not done:
+                    body.insert(0, ["attr", "x", ["subscript", ["attr", ["name", "dataclasses"], "InitVar"], ["name", "int"]], ["const", 0], {"sum": 0, "sections": []}])
+                spec = {**spec, "body": body}
         if "init-forwarded-annotation" in _CTX["steer"]:
             # known finding: the scope of attributes assigned by an `__init__` that is redefined later cannot be recovered
             seen_init, body = False, []
